@@ -27,11 +27,13 @@ LEVEL_TEXT = ("Bounded relational contract on the real Pipeline.map / map_async:
 LEVEL_TEXT += (" Also proved: RunInfo.storage_class (which backend an output is stored in: one for all outputs, else the output's own entry, else the default entry ''; ValueError exactly when neither exists).")
 LEVEL_TEXT += (" Also bounded: a run in two steps (one fixed_indices piece, then the completing full run on the same folder) "
                "returns, stores and invokes the same under 7 configurations incl. map_async.")
+LEVEL_TEXT += (" Also proved: _cannot_be_parallelized (prepare_run switches parallel off exactly when no function has a MapSpec and every generation holds one function).")
 LEVEL_NOTE = ("Schedules are sampled (reverse/random completion per generation through rtc/executors.ShuffleExecutor, "
               "real pools), not enumerated. Trusted: concurrent.futures / asyncio, the reference denotation.")
 TECHNIQUE = ("bounded relational contract checking across executor/storage/schedule configurations; leaf "
              "_executor_for_func and _update_array discharged by z3")
 TECHNIQUE += ('; RunInfo.storage_class discharged by z3')
+TECHNIQUE += ('; _cannot_be_parallelized discharged by z3')
 EXPLANATION = LEVEL_TEXT
 RULE = ("programs of rtc.progs.gen_map_program with >=2 mapped elements x configurations listed in the level text; "
         "distinct = distinct (program, configuration); non-trivial = a generation with >=2 tasks")
@@ -68,6 +70,9 @@ def proof_items():
     return [ProofItem(misc.executor_for_func, gen=_exf_gen),
             # which backend an output is stored in: one for all, else its own entry, else the default entry ""
             ProofItem(small.storage_class, gen=small.sc_gen, registry=sreg),
+            # when prepare_run switches `parallel` off on its own: nothing could run side by side
+            ProofItem(small.cannot_be_parallelized, gen=small.cbp_gen,
+                      registry=lambda: {**{c.short: c for c in small.PARALLEL}, **{c.name: c for c in small.PARALLEL}}),
             # each element is written once, under the key of its linear index, on exactly one side of the executor
             ProofItem(run.update_array, gen=run.gen)]
 
